@@ -404,6 +404,28 @@ func (p Prop) Run(ci interface{}, focus *core.Violation) *core.Outcome {
 				}
 				continue
 			}
+			// the failure itself is returned: the caller can find it with errors.As/Is.  (gorm
+			// joins a second error to the first with "%v; %w", which keeps only the last one
+			// findable - such joined errors are not judged.)
+			if carried && !strings.Contains(e.Error(), "; ") {
+				found, judged := false, false
+				var fe *simdrv.FaultErr
+				var he *ops.HookErr
+				switch {
+				case f.Drv != nil && (f.Drv.Type == "err" || f.Drv.Type == "applied_err" || f.Drv.Type == "rows_err"):
+					judged = true
+					found = errors.As(e, &fe) && fe.ID == f.Drv.ID
+				case f.Hook != nil && !f.Hook.Panic:
+					judged = true
+					found = errors.As(e, &he) && he.ID == f.Hook.ID
+				}
+				if judged && !found {
+					if viol("error_not_wrapped", key, fmt.Sprintf("fault [%s] fired; the returned Error %q names it but does not wrap it: errors.As/errors.Is cannot find the failure", f, e.Error()), sr, f) {
+						return out
+					}
+					continue
+				}
+			}
 			okD1 := f.Drv != nil && f.Drv.Kind == "commit" && f.Drv.Type == "ack_lost"
 			if sr.D1 != sr.D0 && !(okD1 && sr.D1 == base.D1) {
 				if viol("partial_state", key, fmt.Sprintf("fault [%s] fired, Error=%q, but the database is neither unchanged nor complete:\n%s", f, e.Error(), diff(sr.D0, sr.D1)), sr, f) {
